@@ -14,6 +14,18 @@ SIZE_STRINGS = [None, "0", "1", "3", "10", "37", "64b", "100", "1k", "2k"]
 BIG_SIZE_STRINGS = ["64k", "1m"]
 MODES = ["regular", "regular", "transparent", "reverse:http://example.com:80"]
 
+# Transfer-Encoding spellings with chunked as the final coding that mitmproxy's reader accepts (net/http/validate.py: chunked,
+# gzip/deflate/compress + chunked, any case, optional whitespace around the comma; the transfer codings are opaque to a proxy)
+TE_SPELLINGS = [
+    b"chunked", b"Chunked", b"CHUNKED", b"gzip, chunked", b"gzip,chunked", b"GZip ,\tChunked", b"deflate , chunked", b"deflate,chunked",
+    b"compress,chunked", b"compress, chunked",
+]
+
+
+def te_compound(te: bytes) -> bool:
+    return te.strip().lower() != b"chunked"
+
+
 # stream actions; value = (length_preserving, may_return_empty_piece_mid_stream)
 ACTIONS = {
     "true": (True, False),
@@ -69,7 +81,10 @@ def gen_message_plan(rng, direction, L, T, sizes, last):
     if rng.random() < 0.45:
         names = [a for a, (lp, _) in ACTIONS.items() if lp or framing in ("chunked", "eof")]
         action = rng.choice(names)
-    return {"framing": framing, "n": n, "action": action}
+    plan = {"framing": framing, "n": n, "action": action}
+    if framing == "chunked":
+        plan["te"] = rng.choice(TE_SPELLINGS) if rng.random() < 0.4 else b"chunked"
+    return plan
 
 
 def build_request(rng, k, mode, plan, expect100):
@@ -85,7 +100,7 @@ def build_request(rng, k, mode, plan, expect100):
     if plan["framing"] == "cl":
         head += b"Content-Length: %d\r\n" % len(body)
     elif plan["framing"] == "chunked":
-        head += b"Transfer-Encoding: chunked\r\n"
+        head += b"Transfer-Encoding: " + plan.get("te", b"chunked") + b"\r\n"
         wire, cf = gen.chunked(body, rng, exts=False, hexcase=rng.random() < 0.2)
         feats |= cf
     if expect100 and plan["framing"] != "none":
@@ -103,7 +118,7 @@ def build_response(rng, tag, plan):
     if plan["framing"] == "cl":
         head += b"Content-Length: %d\r\n" % len(body)
     elif plan["framing"] == "chunked":
-        head += b"Transfer-Encoding: chunked\r\n"
+        head += b"Transfer-Encoding: " + plan.get("te", b"chunked") + b"\r\n"
         wire, _ = gen.chunked(body, rng, exts=False, hexcase=rng.random() < 0.2)
     else:
         close_after = True
@@ -214,3 +229,43 @@ def max_chunk(req):
         best = max(best, n)
         pos = eol + 2 + n + 2
     return best
+
+
+TE_MODES = ["buffered", "early", "late", "late-store", "early-store", "callable"]
+TE_MATRIX = [(te, m, d) for te in TE_SPELLINGS for m in TE_MODES for d in ("req", "resp")]
+
+
+def gen_te_case(rng, k):
+    """Fixed matrix: every accepted Transfer-Encoding spelling x streaming mode x direction, one chunked message each.
+    buffered: no threshold; early: addon enables streaming at the head; late: stream_large_bodies crossed by the buffered bytes
+    (switch in mid-body); *-store: the same with store_streamed_bodies; callable: addon stream callable (upper-casing)."""
+    te, tmode, direction = TE_MATRIX[k % len(TE_MATRIX)]
+    mode = rng.choice(MODES)
+    stream = "10" if tmode.startswith("late") else None
+    store = tmode.endswith("store")
+    action = {"buffered": None, "early": "true", "early-store": "true", "callable": "upper"}.get(tmode)
+    n = rng.choice([1, 11, 12, 60, 300, 2500])
+    if tmode.startswith("late"):
+        n = max(n, 11)
+    body_plan = {"framing": "chunked", "n": n, "action": action, "te": te}
+    none_rq = {"framing": "none", "n": 0, "action": None}
+    small_rs = {"framing": "cl", "n": 5, "action": None}
+    rq_plan, rs_plan = (body_plan, small_rs) if direction == "req" else (none_rq, body_plan)
+    rq = build_request(rng, 0, mode, rq_plan, expect100=False)
+    rs = build_response(rng, rq["tag"], rs_plan)
+    big = max(len(rq["raw"]), len(rs["raw"]))
+    return {
+        "mode": mode,
+        "options": {"body_size_limit": None, "stream_large_bodies": stream, "store_streamed_bodies": store},
+        "L": None,
+        "T": ref_size(stream),
+        "store": store,
+        "items": [{"req": rq, "resp": rs, "rq_plan": rq_plan, "rs_plan": rs_plan, "early": False}],
+        "client_seg": rng.choice(["whole", "random", "fixed", "bytes"] if big < 1500 else ["whole", "random", "fixed"]),
+        "server_seg": rng.choice(["whole", "random", "fixed", "bytes"] if big < 1500 else ["whole", "random", "fixed"]),
+        "early": False,
+        "fixed_seg": rng.choice([1, 3, 7, 16, 100]) if big < 1500 else rng.choice([16, 100, 1000]),
+        "schedule": rng.choice(["fifo", "random"]),
+        "delay_p": rng.choice([0.0, 0.0, 0.3]),
+        "te_matrix": (te, tmode, direction),
+    }
